@@ -73,6 +73,7 @@ ObsInit(cfg) ==
     reg    |-> [b \in BusNames(cfg) |-> 0],
     proc   |-> [b \in BusNames(cfg) |-> <<>>],     \* events whose processing on b finished (ProcE), in order
     procB  |-> {},                                 \* <<b,e>> whose processing began
+    take   |-> {},                                 \* <<b,e,waiting>>: frames opened by an inline drain, and whether the draining handler was still waiting then
     procX  |-> {},                                 \* <<b,e>> whose processing was abandoned by an exception
     xw     |-> {},                                 \* external waiters
     stopped|-> {},                                 \* buses for which stop() was called (begin)
@@ -273,7 +274,7 @@ StepEnter(cfg, o, ln) ==
       w2b == IF IsParallel(cfg, ln.b) THEN {}
              ELSE {W("C02.serial", ln.e, ln.b, ln.h, y.act, ln.byk) : y \in {z \in o.open : z.b = ln.b /\ z.aw = 0}}
       \* C05: between await-begin and the child's completion only the child and its descendants run
-      drainerWaiting == \E z \in o.open : z.act = ln.bya /\ z.aw # 0 /\ ~o.snap[z.aw].sig
+      drainerWaiting == \E tk \in o.take : tk[1] = ln.b /\ tk[2] = ln.e /\ tk[3]
       w5 == {W("C05.unrelated", ln.e, ln.b, ln.h, y.act, IF ln.byk = "in" /\ ~drainerWaiting THEN "in_after_done" ELSE ln.byk) :
                y \in {z \in o.open : z.aw # 0 /\ ~Done(o, z.aw) /\ ln.e \notin Sub(o, z.aw) /\ ~SiblingsPar(cfg, x, z)
                                    /\ ~\E z2 \in o.open : z2.act # z.act /\ SiblingsPar(cfg, z2, z) /\ z2.aw # 0 /\ ln.e \in Sub(o, z2.aw)}}
@@ -367,13 +368,14 @@ StepIdleE(cfg, o, ln) ==
   IN AddW(o1, w)
 
 StepStopB(cfg, o, ln) ==
-  [o EXCEPT !.xw = @ \cup {[k |-> "stop", d |-> ln.d, e |-> 0, b |-> ln.b, t0 |-> ln.t, tmo |-> ln.tmo, before |-> {}]},
+  [o EXCEPT !.xw = @ \cup {[k |-> "stop", d |-> ln.d, e |-> 0, b |-> ln.b, t0 |-> ln.t, tmo |-> ln.tmo, before |-> IF ln.running THEN {1} ELSE {}]},
             !.stopped = @ \cup {ln.b},
             !.stopAcc[ln.b] = IF ln.b \in o.stopped THEN @ ELSE Len(o.acc[ln.b])]
 StepStopE(cfg, o, ln) ==
   LET X == {x \in o.xw : x.k = "stop" /\ x.d = ln.d}
       x == CHOOSE y \in X : TRUE
-      o1 == Bump([o EXCEPT !.xw = @ \ X, !.stopT[ln.b] = ln.t], "stopE")
+      \* a call that found the bus not running (never started, or another stop() already in progress) returns at once and promises nothing
+      o1 == Bump([o EXCEPT !.xw = @ \ X, !.stopT[ln.b] = IF X # {} /\ x.before # {} /\ @ < 0 THEN ln.t ELSE @], "stopE")
       bound == (IF x.tmo > 0 THEN x.tmo ELSE 0) + 100
       w == IF X = {} THEN {}
            ELSE (IF ln.t - x.t0 > bound THEN {W("C16.slow", 0, ln.b, "", ln.t - x.t0, "")} ELSE {})
@@ -410,7 +412,9 @@ StepExpE(cfg, o, ln) ==
 \* ------------------------------------------------------------------------
 StepProcB(cfg, o, ln) ==
   LET n == IF ln.n >= 0 THEN ln.n ELSE 0
+      waiting == ln.ok = "in" /\ \E z \in o.open : z.act = ln.oa /\ z.aw # 0 /\ ~o.snap[z.aw].sig
       o1 == [o EXCEPT !.procB = @ \cup {<<ln.b, ln.e>>},
+                      !.take = IF ln.ok = "in" THEN {tk \in @ : ~(tk[1] = ln.b /\ tk[2] = ln.e)} \cup {<<ln.b, ln.e, waiting>>} ELSE @,
                       !.exps = {IF ~x.done /\ x.b = ln.b /\ x.ty = o.ety[ln.e] THEN [x EXCEPT !.cands = Append(@, <<ln.e, n, ln.t>>)] ELSE x : x \in @}]
   IN o1
 StepProcE(cfg, o, ln) == Bump([o EXCEPT !.proc[ln.b] = Append(@, ln.e)], "complete")
